@@ -56,6 +56,10 @@ def generate(rng, tier, idx):
     ops.append({"op": "dump", "path": path})
     ops.append({"op": "restart", "path": path, "via": "path"})
     _machine = "M-TI"
+    if rng.random() < 0.4:
+        ops.extend(KITS[_machine].disturbance(K, rng))
+        ops.append({"op": "dump", "path": path})
+        ops.append({"op": "restart", "path": path, "via": "path"})
     if rng.random() < 0.25:
         # a bystander object with other content lives next to the main one
         b_build, b_final = KITS[_machine].bystander(rng, tier)
